@@ -363,3 +363,88 @@ from .common import lazy  # noqa: E402
 RULES.append(lazy("C16", "r1_projections", "the purge tracker is initialised from the preschedule's consumer map: a consumer missing there lets its input be purged early"))
 RULES.append(lazy("C03", "r6_loop_wiring", "every requested output is known to the scheduler (else it is purged as unneeded)"))
 RULES.append(lazy("C02", "r12_one_transfer_per_host", "a duplicate transfer is still unanswered when its source is purged after the first copy arrived"))
+
+
+def r8_undecodable_output(ctx):
+    """C04.R8 / C01: a requested output counts as delivered — `State.outputs[ds]` non-None, which is what the purge guard and the end of the
+    run look at — only when its payload was decoded.  If decoding the fetched payload fails, notify either fails (the run ends with an
+    error) or leaves the output undelivered; recording a placeholder object in its place makes the dataset purgeable and lets the run
+    return something that is not the value the task produced."""
+    repo = ctx.repo
+    fi = repo.func(f"{NOTIFY}.notify")
+    ctx.analysed(fi.qual)
+    D = ds("D", "T")
+    hdr = Obj("cascade.executor.msg.DatasetTransmitPayloadHeader", {"ds": D, "deser_fun": "my.deser", "confirm_idx": 3, "confirm_address": "a"})
+    ev = Obj("cascade.executor.msg.DatasetTransmitPayload", {"header": hdr, "value": b"BYTES"})
+    env = _notify_state(Atom("T"), ds("D1", "P1"), ds("D9", "P9"), worker("H1"), {"state.outputs": {D: None}})
+    rid = f"{ctx.pid}.R8" if ctx.pid == "C04" else f"{ctx.pid}.UNDECODABLE"
+    n = 0
+    ip = Interp(repo, raising=lambda d: d["name"].rsplit(".", 1)[-1] == "des_output")
+    for p in ip.explore(fi, env=env, args={"events": [ev]}):
+        if not any(e.kind == "raise" and e.data.get("from_call") for e in p.effects):
+            continue
+        n += 1
+        v = p.heap.get("state.outputs", {}).get(D) if isinstance(p.heap.get("state.outputs"), dict) else None
+        if p.exit[0] == "return" and v is not None:
+            ctx.violation(rid, fi.qual, loc(fi), "an undecodable payload is not a delivered output",
+                          f"decoding the fetched payload of the requested output D fails, yet notify returns with outputs[D] = {vkey(v)[:100]}: the purge guard and the "
+                          f"end-of-run check take any non-None entry for the delivered value, so D is dropped on its hosts and the caller receives a placeholder "
+                          f"instead of the value the task produced")
+        else:
+            ctx.ok(rid, loc(fi), f"decoding failure -> notify {p.exit[0]}s, output still undelivered")
+    ctx.floor(rid + ".paths", n, 1)
+
+
+RULES.append(r8_undecodable_output)
+
+
+def r9_transfer_on_behalf_of_consumer(ctx):
+    """C04.R9: the purge guard knows two reasons to keep a dataset: a consumer that has not completed, and a requested value that has not
+    arrived.  A transfer is safe from a concurrent purge of its source only because it is commanded on behalf of such a consumer (the
+    preparation list of an assignment: the consumer cannot complete before the copy arrived), a fetch only because it is commanded for a
+    queued requested output.  Therefore: every `Bridge.transmit` call site of the controller / scheduler lies in `act` (or a helper split off
+    it) and ships a dataset of the assignment's preparation list; every `Bridge.fetch` site lies in `flush_queues` (or a helper of it).  A
+    transfer commanded for any other reason is still unanswered when its source copy is dropped."""
+    from .common import helper_of
+    repo = ctx.repo
+    ACTQ, FLQ = f"{ACT}.act", f"{ACT}.flush_queues"
+    n = 0
+    for fi in repo.all_funcs():
+        if not fi.module.name.startswith(("cascade.controller", "cascade.scheduler")) or isinstance(fi.node, ast.Lambda):
+            continue
+        for node in walk_scope(fi.node):
+            if isinstance(node, ast.Call) and isinstance(node.func, ast.Attribute) and node.func.attr in ("transmit", "fetch") \
+                    and not (isinstance(node.func.value, ast.Name) and node.func.value.id in ("self", "cls")):
+                recv = ast.unparse(node.func.value)
+                if "bridge" not in recv.lower():
+                    continue
+                n += 1
+                home = ACTQ if node.func.attr == "transmit" else FLQ
+                if fi.qual == home or helper_of(repo, fi.qual, {home}):
+                    ctx.ok("C04.R9", loc(fi, node), f"{node.func.attr} commanded in {home.rsplit('.', 1)[-1]}")
+                else:
+                    ctx.violation("C04.R9", fi.qual, loc(fi, node), f"{node.func.attr} commanded on behalf of a pending consumer / queued output",
+                                  f"{fi.qual} commands a {node.func.attr} outside {home.rsplit('.', 1)[-1]}: it is tied neither to an assignment's consumer nor to a queued requested "
+                                  f"output, the only two things the purge guard waits for — when the dataset's consumers finish first, the source copy is dropped while this "
+                                  f"{node.func.attr} is still unanswered")
+    ctx.floor("C04.R9.sites", n, 2)
+    # provenance in act: what is shipped is the assignment's preparation list, to the assignment's host
+    fa = repo.func(ACTQ)
+    ctx.analysed(fa.qual)
+    D, D2 = ds("D", "P"), ds("D2", "P2")
+    H1, H2 = Atom("H1"), Atom("H2")
+    W = worker(H1)
+    asg = Obj("cascade.scheduler.core.Assignment", {"worker": W, "tasks": ["t"], "prep": [(D, H2), (D2, H1)], "outputs": set()}, name="ASSIGNMENT")
+    for p in Interp(repo).explore(fa, args={"assignment": asg}):
+        if p.exit[0] != "return":
+            continue
+        tr = [e for e in p.effects if e.kind == "call" and e.data.get("method") == "transmit"]
+        got = [(vkey(e.data["args"][0]), vkey(e.data["args"][1]), vkey(e.data["args"][2])) for e in tr if len(e.data["args"]) >= 3]
+        if got != [(vkey(D), vkey(H2), vkey(H1))]:
+            ctx.violation("C04.R9", fa.qual, loc(fa), "act ships the assignment's preparation list",
+                          f"assignment on H1 with preparation [(D from H2), (D2 from H1 itself)]: act commands transfers {got}; expected exactly (D, H2 -> H1)")
+        else:
+            ctx.ok("C04.R9", loc(fa), "act: one transfer per remote preparation entry, from its recorded source to the assignment's host")
+
+
+RULES.append(r9_transfer_on_behalf_of_consumer)
